@@ -1,8 +1,10 @@
+//@integration verif_replay_d9
+//@props C10
 // D9: client deadline measured from client creation instead of from the last received frame
 use std::time::{Duration, Instant};
 
 #[test]
-fn d9_client_times_out_right_after_late_handshake() {
+fn verif_d9_client_times_out_right_after_late_handshake() {
     let server_addr = "127.0.0.1:18991";
     let mut ccfg: uflow::client::Config = Default::default();
     ccfg.endpoint_config.active_timeout_ms = 1500;      // 1.5 s of silence allowed
